@@ -1115,7 +1115,7 @@ def run(ctx):
     if scale < 1:
         fams = [(["a", "A", "a b", "and", "start", "total-cost", "1", ""][: max(5, int(20 * scale))], ["fluent", "action", "param"], [[], ["temporal"]], 2)]
         ctx.cov["scale"] = scale
-    nfresh = max(4, int((40 if q else 300) * scale))
+    nfresh = max(4, int((30 if q else 300) * scale))
     stats = {}
     t1_notes = []
     nontrivial = 0
@@ -1193,7 +1193,7 @@ def run(ctx):
     ctx.notes["t1_as_written_counterexamples"] = t1_notes
 
     # ---- T3: renamed G2 problems, first use and 2-step histories --------------------------
-    n = max(12, int((400 if q else 4000) * scale))
+    n = max(12, int((300 if q else 4000) * scale))
     corpus = gen_corpus(rng, n, kws)
     pl = _Plan(100000000)
     sample = set(rng.sample(range(len(corpus)), min(nfresh, len(corpus))))
